@@ -26,7 +26,7 @@ LEVEL = "exploration"
 RULE = (
     "(i) exhaustive structural patterns per variable {bound kind none/lower/upper/both} x {position lower/interior/upper} x {gradient sign -,0,+} "
     "for n<=2 (quick) / n<=3 (thorough), each with 3 numeric realisations x memory {0,1,3 pairs}; (ii) Hypothesis cases n=1..10, 0..maxcor pairs from an SPD matrix, "
-    "forced breakpoint ties, gradient scale 1e-3..1e3; (iii) inputs intercepted in real convex box runs. "
+    "forced breakpoint ties, gradient scale 1e-3..1e3, optionally some 'inert' variables (zero gradient component and zero rows in every pair, i.e. variables the objective ignores); (iii) inputs intercepted in real convex box runs. "
     "non-trivial = some variable sits on a bound with the gradient pushing outward and its index differs from its rank in the breakpoint order, "
     "or >=2 breakpoints are crossed with >=1 pair in memory; distinct = distinct input hash"
 )
@@ -136,7 +136,7 @@ def run_case(spec, stats=None):
         tb = breakpoints(x, g, lb, ub)
         nt, outward, crossed = nontrivial(x, g, lb, ub, tb, tref, npairs)
         stats.case(spec, nt, [f"pairs={min(npairs, 3)}{'+' if npairs > 3 else ''}", f"outward={min(int(outward.sum()), 2)}{'+' if outward.sum() > 2 else ''}",
-                              f"crossed={min(crossed, 3)}{'+' if crossed > 3 else ''}", f"src={spec.get('src', 'hyp')}"])
+                              f"crossed={min(crossed, 3)}{'+' if crossed > 3 else ''}", f"src={spec.get('src', 'hyp')}", f"inert={bool(spec.get('inert'))}"])
         stats.maxi("max_rel_dev_from_reference", dev if dev <= 1e-7 else 0.0)
 
 
@@ -146,17 +146,26 @@ def run_case(spec, stats=None):
 
 
 @st.composite
-def pairs_spd(draw, n, kmax):
+def pairs_spd(draw, n, kmax, inert=()):
+    """Positive-curvature pairs y = A s.  `inert` variables are variables the objective does not depend
+    on: their components of every s and y are exactly zero (A is block-diagonal with respect to them)."""
     k = draw(st.integers(0, kmax))
     lam = [10.0 ** draw(grid(-1.0, 2.0, 30)) for _ in range(n)]
     nh = draw(st.integers(0, min(2, max(n - 1, 0))))
     hv = [draw(vec(sgrid(1.0, 10), n)) for _ in range(nh)]
+    for v in hv:
+        for i in inert:
+            v[i] = 0.0
     Q = householder_Q(hv, n)
     A = (Q * np.array(lam)) @ Q.T
     S, Y = [], []
     for _ in range(k):
         s = np.array(draw(vec(sgrid(2.0, 40), n)))
+        for i in inert:
+            s[i] = 0.0
         y = A @ s
+        for i in inert:
+            y[i] = 0.0
         S.append(s.tolist())
         Y.append(y.tolist())
     return S, Y
@@ -166,7 +175,10 @@ def pairs_spd(draw, n, kmax):
 def case(draw):
     n = draw(st.integers(1, 10))
     maxcor = draw(st.integers(1, 10))
-    S, Y = draw(pairs_spd(n, maxcor))
+    inert = ()
+    if n >= 2 and draw(st.integers(0, 3)) == 0:
+        inert = tuple(sorted(set(draw(st.lists(st.integers(0, n - 1), min_size=1, max_size=max(1, n // 2))))))
+    S, Y = draw(pairs_spd(n, maxcor, inert))
     gscale = draw(loggrid(-3, 3, 12))
     x, g, lb, ub = [], [], [], []
     for i in range(n):
@@ -192,6 +204,8 @@ def case(draw):
             xi = c
         sign = draw(st.sampled_from([-1.0, 1.0, -1.0, 1.0, 0.0]))
         gi = sign * gscale * draw(grid(0.05, 2.0, 39))
+        if i in inert:
+            gi = 0.0
         x.append(xi); g.append(gi); lb.append(l); ub.append(u)
     # forced ties between breakpoints
     if n >= 2 and draw(st.integers(0, 3)) == 0:
@@ -207,7 +221,7 @@ def case(draw):
                 dist = (x[j] - lba[j]) if g[j] > 0 else (uba[j] - x[j])
                 if np.isfinite(dist) and dist > 0 and draw(st.booleans()):
                     g[j] = float(np.sign(g[j]) * dist / tb[i])
-    return {"n": n, "maxcor": maxcor, "S": S, "Y": Y, "x": x, "g": g, "lb": lb, "ub": ub, "iter": draw(st.sampled_from([0, 1, 5])), "src": "hyp"}
+    return {"n": n, "maxcor": maxcor, "S": S, "Y": Y, "x": x, "g": g, "lb": lb, "ub": ub, "iter": draw(st.sampled_from([0, 1, 5])), "src": "hyp", "inert": list(inert)}
 
 
 # ----------------------------------------------------------------------------
